@@ -219,7 +219,10 @@ class NK(object):
         return {'states': [repr(s) for s in self.states],
                 'R': self.edges(),
                 'L': {str(i): sorted(map(str, l))
-                      for i, l in enumerate(self.labels)}}
+                      for i, l in enumerate(self.labels)},
+                'L_repr': {str(i): sorted(map(repr, l))
+                           for i, l in enumerate(self.labels)
+                           if any(not isinstance(a, str) for a in l)}}
 
 
 def nk_of(K):
